@@ -32,12 +32,13 @@ def impl_split(job):
     from bioscrape.lineage import LineageVolumeSplitter
     import bioscrape.random as brandom
     out = []
-    for rec in job["recs"]:
+    for n_rec, rec in enumerate(job["recs"]):
         res = {"ok": True}
         try:
             ns = len(rec["n"])
             names = ["S%d" % (i + 1) for i in range(ns)]
             m = Model(species=names, initial_condition_dict={s: 0 for s in names})
+            reconf = n_rec % 2 == 1       # Splitter.Prev: configured before with other modes, then re-configured
             p = f(rec["p"])
             draws = []
             for kind, val in rec["draws"]:
@@ -47,8 +48,14 @@ def impl_split(job):
                 sp = PerfectBinomialVolumeSplitter()
             elif rec["cls"] == "general":
                 sp = GeneralVolumeSplitter()
-                sp.py_set_partitioning({"perfect": [names[i] for i in range(ns) if rec["modes"][i] == "perfect"],
-                                        "duplicate": [names[i] for i in range(ns) if rec["modes"][i] == "duplicate"]}, m)
+                opts = {"perfect": [names[i] for i in range(ns) if rec["modes"][i] == "perfect"],
+                        "duplicate": [names[i] for i in range(ns) if rec["modes"][i] == "duplicate"]}
+                if reconf:
+                    sp.py_set_partitioning({"perfect": [names[i] for i in range(ns) if rec["prev"][i] == "perfect"],
+                                            "duplicate": [names[i] for i in range(ns) if rec["prev"][i] == "duplicate"]}, m)
+                    sp.py_set_partition_noise(0.5)
+                    opts = {k: v for k, v in opts.items() if v}      # a mode no species has is not mentioned at all
+                sp.py_set_partitioning(opts, m)
                 sp.py_set_partition_noise(f(rec["noise"]))
             else:
                 opts = {names[i]: rec["modes"][i] for i in range(ns)}
@@ -70,7 +77,7 @@ def impl_split(job):
             V = f(rec["V"])
             vcons = (abs(vd - V) < 1e-12 and abs(ve - V) < 1e-12) if dupv else (abs(vd + ve - V) < 1e-12 and vd > 0 and ve > 0)
             if not cons:
-                res = {"ok": False, "what": "conservation", "detail": "mother %r -> %r + %r with modes %r" % (n, gd, ge, modes)}
+                res = {"ok": False, "what": "conservation" + (":reconfigured" if reconf and rec["cls"] == "general" else ""), "detail": "mother %r -> %r + %r with modes %r" % (n, gd, ge, modes)}
             elif not vcons:
                 res = {"ok": False, "what": "volume", "detail": "mother volume %r -> %r + %r (volume mode %s)" % (V, vd, ve, rec["vmode"])}
             elif gd != want_d or ge != want_e:
